@@ -17,7 +17,7 @@ Definition run_case (engine : bytes) (v : val) : val :=
         | None => VL [finding K_BAD engine (VL []) (VL [])]
         | Some i =>
             VL (finding K_TAG (tag_serve i) (VL []) (VL [])
-                :: cmp_obs (model_obs i obs) obs (model_polls_ext i obs) ++ cmp_text i obs
+                :: cmp_obs (forallb fused_stream (i_streams i)) (model_obs i obs) obs (model_polls_ext i obs) ++ cmp_text i obs
                 ++ match dec_sobs obs with
                    | None =>          (* serve itself panicked (or the observation is malformed) *)
                        match obs with
